@@ -22,6 +22,9 @@ def build(ctx, F, rule):
 
 def run(ctx):
     _run(ctx)
+    ctx.delegate("C05", ["C05.header", "C05.ranges"], "C09.bbox",
+                 "the header box does not depend on when finalize ran: sentinels are reset by the first write, every shape's ranges "
+                 "are real values, finalize only zeroes dimensions that were never grown", floor=20)
     ctx.delegate("C10", ["C10.reject"], "C09.reject",
                  "finalize with nothing new to commit performs no I/O: a rejected write changes no state (in particular it does "
                  "not re-arm finalize)", floor=1)
